@@ -139,3 +139,10 @@ Proof. exact set_tpi_params_valid. Qed.
 Theorem C03_set_tpi_params_unchecked_refuted :
   exists p, set_tpi_params 0 13 5 5 None = Some p /\ payload_ok V_W 0x1100 p = true /\ parser_1100 p = Raise AssertionError.
 Proof. exact set_tpi_params_unchecked_refuted. Qed.
+
+(* put_weather_temp -> I|0002 (a faked outdoor sensor): accepted by the regenerated regex and decoded by the modelled parser_0002 to the
+   temperature of the word (C04's codec), with the trailing 01 *)
+Theorem C03_put_weather_temp_valid : forall w, (forall x, w = Some x -> 0 <= x < 65536) ->
+  payload_ok V_I 0x0002 (put_weather_payload w) = true /\
+  parser_0002 (put_weather_payload w) = (do t <- hex_to_temp (word_of_opt w); Ok (t, lit "01")).
+Proof. exact put_weather_temp_valid. Qed.
